@@ -106,6 +106,8 @@ def gen_plan(seed, index, tier):
         "ambient": [rng.choice(["reseed", "consume"]), rng.randint(0, 2**31 - 1)], "other_rs": rng.randint(0, 2**31 - 1),
         "fresh": bool(TIERS[tier].get("fresh_every") and index % TIERS[tier]["fresh_every"] == 0),
         "rare": rare,
+        # per-sample parameter (the row id again) handed to the metrics: must be resampled with its row
+        "row_tag": rng.random() < 0.3,
     }
     return plan
 
@@ -128,8 +130,13 @@ def construct(plan, ctx, rs=None):
 
     spies = {f"m_{k}": seams.SpyMetric(f"m_{k}", k) for k in plan["metrics"]}
     metrics = list(spies.values())[0] if plan["form"] == "callable" else spies
+    sample_params = None
+    if plan.get("row_tag"):
+        tag = {"row_tag": list(range(plan["n"]))}
+        sample_params = tag if plan["form"] == "callable" else {name: dict(tag) for name in spies}
     ctx.spy_log = []
     ok, mf, site = ctx.call(MetricFrame, metrics=metrics, y_true=list(range(plan["n"])), y_pred=plan["ypred"],
+                            sample_params=sample_params,
                             sensitive_features=_features(plan, 0, plan["nsf"], "sf"),
                             control_features=_features(plan, plan["nsf"], plan["nsf"] + plan["ncf"], "cf"),
                             n_boot=plan["n_boot"], ci_quantiles=list(plan["quantiles"]),
@@ -213,6 +220,10 @@ def execute(plan, ctx):
         ctx.fault("hashseed")
         if r.get("obs", {}).get("ci") != kernel.canon(c1):
             ctx.fail("C18.reproducible_fresh", "*_ci values differ in a fresh interpreter under another PYTHONHASHSEED")
+    if ctx.scratch.get("row_tag_mismatch"):
+        name, rows_, tags_ = ctx.scratch["row_tag_mismatch"][0]
+        ctx.fail("C18.row_integrity", f"a per-sample parameter did not travel with its row in a (re)sample: metric {name} got rows "
+                 f"{rows_}.. with parameters of rows {tags_}..")
     # ---- parse the spy log into 1 + n_boot blocks ----------------------------------------
     blocks = _parse_blocks(ctx, plan, log1)
     # ---- 1./2. shape and ordering ---------------------------------------------------------
@@ -563,6 +574,8 @@ def shrink_candidates(plan):
 
     if p.get("fresh"):
         yield mod(fresh=False)
+    if p.get("row_tag"):
+        yield mod(row_tag=False)
     if p["ncf"] > 0:
         yield mod(ncf=p["ncf"] - 1, feats=p["feats"][:p["nsf"] + p["ncf"] - 1])
     if p["nsf"] > 1:
